@@ -46,7 +46,7 @@ class IndependentSphere(Autocorrelation):
 
         """
         # spherical correlation function
-        acf = np.empty_like(r)
+        acf = np.zeros_like(r)
 
         # the Heaviside factor
         heaviside = r <= 2 * self.radius
